@@ -28,7 +28,6 @@ from collections import Counter
 sys.path.insert(0, os.path.dirname(os.path.abspath(__file__)))
 import common
 from common import CaseResult
-import mini
 import lib_trans as L
 
 PROPERTY = "C19"
@@ -162,7 +161,7 @@ def run_case(recipe):
     from maltoolbox.attackgraph import AttackGraph
     info, lg, lcf = L.get_lang(recipe["lang"])
     r = CaseResult()
-    model, objs = mini.build_model(lcf, recipe, name="m")
+    model, objs = L.build_model(lcf, recipe, name="m")
     ids = [int(a.id) for a in objs]
     exp_assets = Counter((int(a.id), str(a.name), str(a.type)) for a in model.assets)
     exp_rels = Counter()
